@@ -399,18 +399,18 @@ def _driver_run(ch, tr):
 def _driver_mp_run(ch, tr):
     from engines import driver_sim
 
-    return driver_sim.make_run("C09", families=("energy", "mech", "poro"))(ch, tr)
+    return driver_sim.make_run("C09", families=("energy", "mech", "poro", "damage"))(ch, tr)
 
 
 WORKLOADS = [
     Workload(
-        name="driver", run=_driver_run, runs={"quick": 160, "thorough": 6_000}, chunk=10, run_timeout=300.0,
+        name="driver", leak_mb=0.75, override_cap=32, run=_driver_run, runs={"quick": 160, "thorough": 6_000}, chunk=10, run_timeout=300.0,
         real=["pp.run_time_dependent_model", "pp.NewtonSolver", "SolutionStrategy hooks", "pp.TimeManager", "EquationSystem", "SinglePhaseFlow physics"],
         stub=["fault-injecting overrides of check_convergence / solve_linear_system (pass the real answer through when no fault is due)", "save_data_time_step is a no-op"],
         note="same clock clauses as tm_walk, observed around the real solve in the real time loop",
     ),
     Workload(
-        name="driver_mp", run=_driver_mp_run, runs={"quick": 32, "thorough": 1_500}, chunk=4, run_timeout=600.0,
+        name="driver_mp", leak_mb=0.9, override_cap=12, run=_driver_mp_run, runs={"quick": 32, "thorough": 1_500}, chunk=4, run_timeout=600.0,
         real=["as workload driver, physics = MassAndEnergyBalance / MomentumBalance with contact mechanics / Poromechanics: iteration counts and genuine non-convergence come from contact mechanics"],
         stub=["fault-injecting overrides of check_convergence / solve_linear_system", "save_data_time_step is a no-op"],
     ),
